@@ -252,8 +252,16 @@ def check(run):
         if not psets:
             run.unrecognised('R5', 'probe-wraps', fname, f.loc(), 'no ep.port(candidate) inside a loop of %s (the port-0 probe idiom changed)' % fname)
         else:
+            def expand(e, depth=0):
+                out = []
+                for x in walk(e):
+                    out.append(x)
+                    if x['k'] == 'ref' and x.get('dk') == 'local' and depth < 3:      # the candidate computed in a local first
+                        for _s, d_ in q.local_defs(f, x['did']):
+                            out += expand(d_, depth + 1)
+                return out
             def wraps(c):
-                for x in walk(c['args'][0]):
+                for x in expand(c['args'][0]):
                     if x['k'] == 'int' and isinstance(x.get('v'), int) and 1024 <= x['v'] <= 65535:
                         return True
                     if x['k'] == 'member' and x.get('name') == 'm_next_bind_port':
